@@ -5,6 +5,7 @@ CONSTANTS
   FwKinds = {"ok"}
   FwConfigs = {"--"}
   Values = {1}
+  NoResult = {FALSE}
   ErrReplies = FALSE
   HostileClasses = {"trunc", "types", "missing", "oversize", "delim", "chanlist", "vforge"}
   MetaKeys = {"cause", "effects", "cause+effects", "complete_channels", "success_channels", "value", "handler", "channels", "waitingHandlers", "cancelled", "stopped", "name", "alert_done", "success", "failure", "complete", "notify", "parent", "args", "kwargs", "child", "node_call_id", "node_sock", "foo", "_foo"}
@@ -19,5 +20,6 @@ INVARIANT ExecOnce
 INVARIANT Firewalled
 INVARIANT LoopAlive
 INVARIANT QuietDone
+INVARIANT NoWaiter
 VIEW View
 CHECK_DEADLOCK FALSE
